@@ -5,15 +5,13 @@ pub mod transform;
 #[cfg(test)]
 mod tests;
 
+use crate::sync::Mutex;
 use crate::{
     Engine, Result, Vars, data,
     scheduler::{Context, Runtime},
 };
 use serde::{Deserialize, Serialize, de::DeserializeOwned};
-use std::{
-    collections::HashMap,
-    sync::{Arc, Mutex},
-};
+use std::{collections::HashMap, sync::Arc};
 use tracing::debug;
 
 #[cfg(test)]
